@@ -288,11 +288,25 @@ def loop_tick(loop_id):
 
 
 def ite_(c, a, b):
-    """T6 if-conversion helper."""
+    """T6 if-conversion helper: value-level selection instead of a fork (same semantics as
+    `if c: x = a` for side-effect-free a)."""
+    if _real_isinstance(c, SBase) and c.size == 1:
+        c = c.elems[0]
     if _real_isinstance(c, bool):
         return a if c else b
     if _real_isinstance(c, SBool):
-        return A._ite_num(c, a, b)
+        ga = a if _real_isinstance(a, SGen) else None
+        gb = b if _real_isinstance(b, SGen) else None
+        if ga is not None or gb is not None:
+            ea = a.value if ga is not None else a
+            eb = b.value if gb is not None else b
+            dt = (ga or gb).dtype
+            if ga is not None and gb is not None and ga.dtype != gb.dtype:
+                return a if bool(c) else b
+            return SGen([A._ite_num(c, ea, eb)], _np.zeros((), dtype=int), dt)
+        if _real_isinstance(a, (SNum, SBool, bool, int, float)) and _real_isinstance(b, (SNum, SBool, bool, int, float)):
+            return A._ite_num(c, a, b)
+        return a if bool(c) else b
     return a if c else b
 
 
